@@ -37,6 +37,27 @@ CHECKS = {
          "d_matrix_product and d2_fog on every size configuration up to the bound x static/dynamic x dense/sparse on integer data compared exactly, "
          "with compile probes for the dynamic-size configurations.",
     design="4/C05", technique="explicit-state enumeration of finite input / configuration spaces against a reference model"),
+ "C06": dict(
+    text="Bounded exhaustive enumeration over a GENERATED FAMILY of 155 Bundle types (every ordered tuple of length 1-2 over {SO2,SO3,SE2,C1,"
+         "Vector2,SE3} in double and float, every length-3 tuple over {SO3,SE2,Vector2}, nested Bundle<Bundle<A,B>,C> for all pairs) x the full "
+         "product of per-part alphabets: every LieGroupBase operation, Jacobian and Hessian of the Bundle equals the same operation on "
+         "part<i>() (segments, diagonal blocks, exact zeros elsewhere, Hessian block placement; <= 2 ulp), compile-time constants judged at "
+         "run time; fixed/dynamic Eigen vectors and scalars through the free-function interface obey the additive-group laws exactly.",
+    design="4/C06", technique="explicit-state enumeration over a generated configuration family x finite input products, differential oracle"),
+ "C07": dict(
+    text="Bounded exhaustive enumeration: every Manifold model (all Lie groups d/f, vectors, scalars, std::vector<M> of sizes 0..3, every "
+         "alternative of a std::variant, SubManifold with EVERY subset of fixed dimensions (8+8+16+32), AnyManifold over all of these) x full "
+         "products value x tangent and value x value from the branch-structured alphabets: rplus/rminus round trips, rminus(m,m)=0, dof "
+         "consistency, element-wise segment bookkeeping, independent scatter/gather reference for SubManifold, copy / cast identity and "
+         "mutate-after-copy independence.",
+    design="4/C07", technique="explicit-state enumeration over configuration families x finite input products against reference models"),
+ "C09": dict(
+    text="Bounded exhaustive enumeration of 214 problems x start menus x 45 option triples x 2 strategies x 4 differentiation modes from "
+         "fresh strategy state, plus an explicit-state BFS over trust-region strategy states reachable by prefix solves (history depth 2, states "
+         "merged on the exact bytes of the strategy members): callback trace starts at the start point and has non-increasing recomputed "
+         "cost, arguments hold the last iterate, iter <= max_iter, status == MaxIters exactly when the bound stopped it (decided by re-running "
+         "with max_iter+1), Ftol/Ptol results within 1e-3 of closed-form minimisers (long-double normal equations, Procrustes).",
+    design="4/C09", technique="explicit-state enumeration of problem/option products and BFS over solver-state histories against closed-form references"),
  "C10": dict(
     text="Bounded exhaustive enumeration of the full product of J families (8 structured families incl. rank-deficient, graded, nearly "
          "dependent; shapes {1..6}^2 quick, {1..8,16,40}^2 thorough) x 5 d x 5 lambda/Delta x 7 r, each through dense-dynamic, dense-static, "
@@ -52,6 +73,18 @@ CHECKS = {
          "thirds for value / velocity / acceleration, t_max, size(), start(), end(), arclength (exact integration of |quadratic| in long "
          "double); ConstantVelocity = ga*expm(t v) for every degree and FixedCubic end conditions are enumerated separately.",
     design="4/C12", technique="explicit-state BFS over operation histories of the real object against a reference model"),
+ "C13": dict(
+    text="Bounded exhaustive enumeration: K=1..6 x 5 groups x N x control sequences (incl. every sequence over a 3-letter difference "
+         "alphabet) x (t0,dt) menus x times {every knot, +-1 ulp, +-1e-9 dt, thirds, ends, far outside}: domain and clamping, value / "
+         "velocity / acceleration against a Cox-de Boor product-of-exponentials reference in long double, C^(K-1) across every knot, locality "
+         "of every control point, constants, left-equivariance; every time-dependent comparison carries the conditioning of the input time.",
+    design="4/C13", technique="explicit-state enumeration of finite configuration/input products against a reference model"),
+ "C14": dict(
+    text="Bounded exhaustive enumeration: fit_spline_1d (8 specs x N x 30 interval patterns x data patterns) against the independently rebuilt "
+         "constraint system, fit_spline on 4 groups (interpolation from both sides, velocity continuity, rest), dubins_curve<K> K in {1,2,3,5} on "
+         "a polar x heading target grid incl. tangent-circle degeneracies (end pose, unit speed, curvature, length = min over six words of a "
+         "__float128 reference), fit_bspline span, reparameterize_spline monotone / onto / start speed.",
+    design="4/C14", technique="explicit-state enumeration of finite input product spaces against definitional reference models"),
  "C15": dict(
     text="Explicit-state breadth-first search over ALL programs up to depth 4 (quick; 5 thorough for SO2/SO3/SE3) over a ~30-operation "
          "alphabet (compose, inverse, *=, +=, rplus, exp, same-scalar cast, lift/project) on a register file of two elements and two tangents "
